@@ -39,7 +39,8 @@ META = {
                  "bp.Snapshots/Cluster, system.GetRankers and chain.ChainService + multi-node disagreement search",
 }
 
-RES = {"dup": 0, "le_lib": 1, "orphan": 2, "invalid": 3, "connected": 4, "side": 5, "veto": 6, "reorg": 7}
+RES = {"dup": 0, "le_lib": 1, "orphan": 2, "invalid": 3, "connected": 4, "side": 5, "veto": 6, "reorg": 7,
+       "exec_failed": 12, "reorg_failed": 13}
 Z = vf.coq_Z
 
 
@@ -78,7 +79,12 @@ def node_cases(sc, obs):
     blocks = {0: (0, -1, 0, -1, 0)}
     per, src = {}, {}
     j = 0
+    fail = bool(sc.get("fail"))
     for k, op in enumerate(sc["ops"]):
+        if op[0] == "BAD":
+            per.setdefault(0, []).append("FOpBad %s" % Z(op[1]))
+            src.setdefault(0, []).append((k, None))
+            continue
         if op[0] == "B":
             _, i, parent, bp, conf = op
             blocks[i] = (i, parent, blocks[parent][2] + 1, bp, conf)
@@ -90,12 +96,12 @@ def node_cases(sc, obs):
         src.setdefault(nd, []).append((k, o))
         if op[0] == "D":
             b = blocks[op[2]]
-            lst.append("OpD (mkBlk %s %s %s %s %s) %s" % (
+            lst.append("%s (mkBlk %s %s %s %s %s) %s" % ("FOpD" if fail else "OpD",
                 Z(b[0]), Z(b[1]), Z(b[2]), Z(b[3]), Z(b[4]), Z(obs_hash(RES[o["res"]], o))))
         elif op[0] == "R":
-            lst.append("OpR %s" % Z(obs_hash(CODE_R, o)))
+            lst.append("%s %s" % ("FOpR" if fail else "OpR", Z(obs_hash(CODE_R, o))))
         elif op[0] == "S":
-            lst.append("OpS %s" % Z(obs_hash(CODE_R, o)))
+            lst.append("%s %s" % ("FOpS" if fail else "OpS", Z(obs_hash(CODE_R, o))))
         elif op[0] == "G":
             lst.append("OpG [%s] %s" % (";".join(Z(x) for x in op[2]), Z(obs_hash(CODE_G, o))))
         elif op[0] == "F":
@@ -118,7 +124,7 @@ def direct_predicates(sc, obs, stats):
     j = 0
     need = 0 if sc.get("election") else 2 * n // 3 + 1
     for k, op in enumerate(sc["ops"]):
-        if op[0] == "T":
+        if op[0] in ("T", "BAD"):
             continue
         if op[0] == "B":
             _, i, parent, bp, conf = op[:5]
@@ -236,6 +242,19 @@ def direct_predicates(sc, obs, stats):
                     fails.append(("C08:lib-without-support", "LIB %d supported by %d of %d proposals" % (st["lib_no"], sup, np_),
                                   {"op_index": k}))
         prev[nd] = o
+    # residue of a failed reorganisation (known finding): every predicate failure after the first
+    # reorg_failed step of the scenario belongs to that class
+    first = None
+    jj = 0
+    for kk, op in enumerate(sc["ops"]):
+        if op[0] in ("B", "T", "BAD"):
+            continue
+        if obs[jj]["res"] == "reorg_failed" and first is None:
+            first = kk
+        jj += 1
+    if first is not None:
+        fails = [(("C08:lib-off-main-chain-after-failed-reorg" if d.get("op_index", -1) >= first else key), what, d)
+                 for key, what, d in fails]
     return fails
 
 
@@ -328,17 +347,17 @@ def run_engine(ctx, binpath, scenarios, tag, test="TestVerifC08Engine"):
     return obs
 
 
-def model_eval(ctx, name, cases):
+def model_eval(ctx, name, cases, typ="(Z*Z) * list op", fn="scenario_first_diff", imp="Dpos.Lib"):
     """cases: list of Coq terms.  Returns ({case index: first differing op index}, error text)."""
     import re
     bad = {}
     shard = 400
     for s in range(0, len(cases), shard):
         part = cases[s:s + shard]
-        txt = ["From Coq Require Import ZArith List Bool.", "From Verif Require Import Dpos.Lib.", "Import ListNotations.",
+        txt = ["From Coq Require Import ZArith List Bool.", "From Verif Require Import %s." % imp, "Import ListNotations.",
                "Open Scope Z_scope.",
-               "Definition cases : list ((Z*Z) * list op) := [%s]." % ";\n".join(part),
-               "Definition D := Eval vm_compute in map scenario_first_diff cases.", "Print D."]
+               "Definition cases : list (%s) := [%s]." % (typ, ";\n".join(part)),
+               "Definition D := Eval vm_compute in map %s cases." % fn, "Print D."]
         rc, out = ctx.coq_eval("%s_%d" % (name, s // shard), "\n".join(txt))
         if rc != 0:
             return None, out
@@ -403,15 +422,19 @@ def model_obs_at(ctx, case, i):
 
 def chain_case(sc, obs):
     """Coq case for the chain-side tie: size 20000 (nothing is ever confirmed, so the model's LIB
-    is the scripted one), ops OpL / OpC with the hash of the real chain service's observation."""
+    is the scripted one), ops OpL / OpC with the hash of the real chain service's observation
+    (FOpL / FOpC / FOpBad of Dpos/LibFail.v when blocks fail at execution)."""
     blocks = {0: (0, -1, 0)}
     terms = []
     j = 0
+    f = "F" if sc.get("fail") else ""
     for op in sc["ops"]:
-        if op[0] == "B":
+        if op[0] in ("B", "BX"):
             blocks[op[1]] = (op[1], op[2], blocks[op[2]][2] + 1)
+            if op[0] == "BX":
+                terms.append("FOpBad %s" % Z(op[1]))
         elif op[0] == "L":
-            terms.append("OpL %s" % Z(op[1]))
+            terms.append("%sOpL %s" % (f, Z(op[1])))
         elif op[0] == "D":
             o = obs[j]
             j += 1
@@ -420,7 +443,7 @@ def chain_case(sc, obs):
             h = 5381
             for x in flat:
                 h = ((h << 5) + h + x + 7) & HASH_MASK
-            terms.append("OpC (mkBlk %s %s %s (-1) 0) %s" % (Z(b[0]), Z(b[1]), Z(b[2]), Z(h)))
+            terms.append("%sOpC (mkBlk %s %s %s (-1) 0) %s" % (f, Z(b[0]), Z(b[1]), Z(b[2]), Z(h)))
     return "((20000,(-1)),[%s])" % ";\n".join(terms)
 
 
@@ -531,7 +554,7 @@ def run(ctx):
     import time
     T = {}
     t0 = time.time()
-    pr = ctx.prove()
+    pr = ctx.prove(extra_targets=["Dpos/LibFail.vo", "Dpos/Election.vo"])   # models used by the case files
     T['prove'] = round(time.time() - t0, 1)
     t0 = time.time()
     quick = ctx.tier == "quick"
@@ -572,6 +595,7 @@ def run(ctx):
     pred_fail = []
     disagreements = []
     cases, case_src = [], []
+    fcases, fcase_src = [], []
     shapes = set()
     for sc, ob in zip(scen, obs):
         fails = direct_predicates(sc, ob, stats)
@@ -588,8 +612,12 @@ def run(ctx):
                 if dis:
                     disagreements.append((sc, dis))
         for nd, term, src in node_cases(sc, ob):
-            cases.append(term)
-            case_src.append((sc, nd, src))
+            if sc.get("fail"):
+                fcases.append(term)
+                fcase_src.append((sc, nd, src))
+            else:
+                cases.append(term)
+                case_src.append((sc, nd, src))
         for o in ob:
             s = o["state"]
             shapes.add((sc["n"], o["op"], o["res"], len(s["prpsd"] or []), len(s["confirms"] or []), min(s["lib_no"], 40)))
@@ -604,9 +632,13 @@ def run(ctx):
     cobs = run_engine(ctx, chainbin, cscen, "c08chain", test="TestVerifC08ChainEngine")
     chain_pred = []
     for sc, ob in zip(cscen, cobs):
-        cases.append(chain_case(sc, ob))
-        case_src.append((sc, 0, [(k, {"res": "chain", "op": "C", "state": None, "chain_obs": o})
-                                 for k, o in zip([k for k, op in enumerate(sc["ops"]) if op[0] == "D"], ob)]))
+        if sc.get("fail"):
+            fcases.append(chain_case(sc, ob))
+            fcase_src.append((sc, 0, [(k, None) for k, op in enumerate(sc["ops"]) if op[0] in ("D", "L", "BX")]))
+        else:
+            cases.append(chain_case(sc, ob))
+            case_src.append((sc, 0, [(k, {"res": "chain", "op": "C", "state": None, "chain_obs": o})
+                                     for k, o in zip([k for k, op in enumerate(sc["ops"]) if op[0] == "D"], ob)]))
         # direct predicates on the real chain service: never a reorg after a refused NeedReorganization,
         # main chain at heights <= scripted LIB never changes
         lib, prev_main = 0, [0]
@@ -636,6 +668,8 @@ def run(ctx):
             pred_fail.append((key, what, {"scenario_name": sc.get("name", "generated"), "scenario": sc, "detail": detail}))
         ecases.append(election_case(sc, ob))
     ebad, eout = election_eval(ctx, ecases)
+    fbad, fout = model_eval(ctx, "c08_fail_cases", fcases, typ="(Z*Z) * list fop", fn="fscenario_first_diff",
+                            imp="Dpos.Lib Dpos.LibFail")
     bad, out = model_eval(ctx, "c08_cases", cases)
     T['model_eval'] = round(time.time() - t0, 1)
     ctx.cov['timing_s'] = T
@@ -660,6 +694,15 @@ def run(ctx):
                                       "|confirms|, (id, no, bp, range, left)*, |main|, ids*"})
         corr_broken = ("model/implementation differ on %d of %d node histories" % (len(bad), len(cases)), det)
 
+    if fbad is None:
+        corr_broken = corr_broken or ("C08 failure-path correspondence could not be evaluated", fout[-2000:])
+    elif fbad and not corr_broken:
+        ci = sorted(fbad, key=lambda c: len(fcase_src[c][0]["ops"]))[0]
+        sc, nd, src = fcase_src[ci]
+        k, o = src[min(fbad[ci], len(src) - 1)]
+        corr_broken = ("execution-failure model/implementation differ on %d of %d histories" % (len(fbad), len(fcases)),
+                       [{"scenario": sc, "op_index": k, "implementation_obs": flat_obs(RES.get(o["res"], CODE_R), o) if o else None,
+                         "first_differing_model_op": fbad[ci]}])
     if ebad is None:
         corr_broken = corr_broken or ("C08 election correspondence could not be evaluated", eout[-2000:])
     elif ebad and not corr_broken:
